@@ -1,4 +1,5 @@
 import ErdosVerif.Lemmas.SimResidentSpec
+import ErdosVerif.Lemmas.SimEditPending
 /-!
 Part 2: the handlers that never touch a RUNNING task keep the residency / exact-runtime
 invariant (scheduler start / finish, task release, cancellation, workload update,
@@ -131,6 +132,11 @@ theorem NoFin.append {a b : List SEvent} (h1 : NoFin a) (h2 : NoFin b) : NoFin (
   rcases List.mem_append.mp he with h | h
   · exact h1 e h
   · exact h2 e h
+
+/-- The in-place edit of a pending placement event keeps the event types. -/
+theorem NoFin.editPending {evs : List SEvent} (h : NoFin evs) (c : Option Nat) (p : PlacementS) :
+    NoFin (editPending c p evs) :=
+  editPending_forall (P := fun e => e.ev.etype ≠ ET.taskFinished) (fun _ _ _ h' => h') c p evs h
 
 /-- Loop invariant of the loops that collect new events. -/
 abbrev loopEv (n : Int) (ex : List SEvent) {α : Type} {xs : List α} :
